@@ -244,6 +244,19 @@ pub fn replay<E: Engine>(r: &Replay) -> i32 {
         eprintln!("harness error: trace of family {} does not parse", r.family);
         return 2;
     };
+    if r.oracle == "process_abort" {
+        // The history kills the process that runs it: replay it in a child and report how that ended.
+        return match run_isolated::<E>(&trace, false) {
+            Err(why) => {
+                println!("REPRODUCED property={} oracle=process_abort: the process running this history died ({why})", r.property);
+                1
+            }
+            Ok(_) => {
+                println!("not reproduced: {} process_abort", r.property);
+                0
+            }
+        };
+    }
     let o = E::run(&trace, true, false);
     for l in &o.log {
         println!("{l}");
@@ -360,7 +373,7 @@ pub fn run_check<E: Engine>(prop: &str, tier: &str, level: &str, extra: serde_js
     let mut reported = vec![];
     if let Some((origin, v, trace, index)) = violations.first() {
         // Minimisation also runs in a child process; if that dies the unshrunk trace is reported.
-        let (min, runs) = if v.oracle == "process_abort" { (trace.clone(), 0) } else { shrink_isolated::<E>(trace, &v.prop, &v.oracle).unwrap_or((trace.clone(), 0)) };
+        let (min, runs) = if v.oracle == "process_abort" { shrink::shrink_abort::<E>(trace, 250) } else { shrink_isolated::<E>(trace, &v.prop, &v.oracle).unwrap_or((trace.clone(), 0)) };
         let final_v = match run_isolated::<E>(&min, false) {
             Ok(o) => o.violations.into_iter().find(|x| x.prop == v.prop && x.oracle == v.oracle).unwrap_or(v.clone()),
             Err(_) => v.clone(),
@@ -376,7 +389,7 @@ pub fn run_check<E: Engine>(prop: &str, tier: &str, level: &str, extra: serde_js
             trace: serde_json::to_value(&min).unwrap(),
         };
         let path = write_replay(&r);
-        if v.oracle != "process_abort" && !replay_reproduces(&path) {
+        if !replay_reproduces(&path) {
             eprintln!("harness error: violation from {origin} does not reproduce from {path}");
             return (2, None);
         }
